@@ -5,7 +5,7 @@ CHECK = {'level': 'fault_enumeration',
  'rule': 'for each request kind {leased secret read, auth-backend login, token create, create-orphan, batch create; '
          'secret/login/create also response-wrapped} on transactional (thorough: and plain) storage: a fault-free pass '
          "counts the request's N storage operations and M durable mutations, then run k=1..N fails operation k and run "
-         'j=1..M crashes after mutation j and restarts; distinct non-trivial = distinct (request kind, wrap, storage, '
+         'j=1..M crashes after mutation j and restarts; for secrets handed out, the index entry is also judged by what it is for (revoking the requesting token revokes the secret at its backend); a token minted by a request that reported an error is presented again on a restarted node whose lease restore is still running (restore pinned at an unrelated lease record) and must stay refused; distinct non-trivial = distinct (request kind, wrap, storage, '
          'failed operation kind and key class, client outcome) / (request, crash index)',
  'assumptions': ['deterministic crypto/rand seam: the token id a request generates is the same in the fault-free pass '
                  'and in every fault pass',
